@@ -151,6 +151,7 @@ type Node struct {
 	httpHook    func(w http.ResponseWriter, r *http.Request) bool
 	httpLog     []HTTPRequest
 	configPolls int
+	cfgChanged  chan struct{}
 
 	// request log and behaviours (conn.go)
 	reqSeq     int
@@ -166,6 +167,7 @@ type Node struct {
 
 	// dcp state (dcp.go)
 	streamLog    []*StreamRequest
+	streamSeq    int
 	streamScript map[uint16][]StreamReply
 	streamFn     func(req *StreamRequest) *StreamReply
 	streams      map[uint16]*Stream
@@ -215,6 +217,7 @@ func New(cfg Config) (*Node, error) {
 	n := &Node{
 		cfg:          cfg,
 		done:         make(chan struct{}),
+		cfgChanged:   make(chan struct{}),
 		conns:        map[int]*conn{},
 		collections:  map[string]uint32{"_default._default": 0},
 		version:      cfg.Version,
@@ -322,10 +325,11 @@ func (n *Node) BucketName() string { return n.cfg.BucketName }
 func (n *Node) NumVBuckets() int { return n.cfg.NumVBuckets }
 
 // BumpConfig applies mutator (may be nil) to a copy of the current cluster config, increments Rev
-// and installs the result. Nothing is pushed to clients: agents pick the new config up with their
-// next GET_CLUSTER_CONFIG poll (every Config.CccpPollPeriod for helper-made agents). It returns the
-// installed config. Use WaitConfigSeen-style polling on the agent side
-// (agent.ConfigSnapshot().RevID()) to know when an agent applied it.
+// and installs the result. Nothing is pushed on KV connections: agents pick the new config up with
+// their next GET_CLUSTER_CONFIG poll (every Config.CccpPollPeriod for helper-made agents). Only
+// agents seeded with HTTP addresses, which hold a streaming GET /pools/default/bs/<bucket> open,
+// get the new block at once, as with a real server. It returns the
+// installed config. WaitAgentRev / WaitDCPAgentRev tell when an agent has applied it.
 func (n *Node) BumpConfig(mutator func(c *ClusterConfig)) ClusterConfig {
 	n.mu.Lock()
 	defer n.mu.Unlock()
@@ -335,6 +339,8 @@ func (n *Node) BumpConfig(mutator func(c *ClusterConfig)) ClusterConfig {
 	}
 	cc.Rev++
 	n.cluster = cc
+	close(n.cfgChanged)
+	n.cfgChanged = make(chan struct{})
 	return *cc.clone()
 }
 
@@ -423,8 +429,30 @@ func (n *Node) serveHTTP(w http.ResponseWriter, r *http.Request) {
 			"name": n.cfg.BucketName, "uuid": n.cfg.BucketUUID, "bucketType": bucketType,
 			"storageBackend": storage, "nodeLocator": "vbucket",
 		})
-	case path == "/pools/default/b/"+n.cfg.BucketName || path == "/pools/default/bs/"+n.cfg.BucketName:
+	case path == "/pools/default/b/"+n.cfg.BucketName:
 		_, _ = w.Write(n.configJSON())
+	case path == "/pools/default/bs/"+n.cfg.BucketName:
+		// Streaming terse config, for agents seeded with HTTP addresses: one block now and one
+		// after every BumpConfig, until the client or the node goes away.
+		fl, _ := w.(http.Flusher)
+		for {
+			n.mu.Lock()
+			changed := n.cfgChanged
+			n.mu.Unlock()
+			if _, err := w.Write(append(n.configJSON(), "\n\n\n\n"...)); err != nil {
+				return
+			}
+			if fl != nil {
+				fl.Flush()
+			}
+			select {
+			case <-changed:
+			case <-n.done:
+				return
+			case <-r.Context().Done():
+				return
+			}
+		}
 	default:
 		_, _ = w.Write([]byte("{}"))
 	}
